@@ -50,7 +50,7 @@ RandMap(ks, n, acc) ==
     IF ks = {} THEN acc
     ELSE LET k == CHOOSE x \in ks : TRUE IN
          IF Rnd(1..2, n) = 1 THEN RandMap(ks \ {k}, n, acc)
-         ELSE LET r == RawFor(k, n) IN RandMap(ks \ {k}, n, Append(acc, [k |-> k, raw |-> IF r = "nil" THEN "s:x" ELSE r]))
+         ELSE LET r == RawFor(k, n) IN RandMap(ks \ {k}, n, Append(acc, [k |-> k, raw |-> IF r \in {"nil", "x:map"} THEN "s:x" ELSE r]))
 MapKeyPool == UserKeys \cup LevelKeys \cup {<<10, 1, 3>>}
 
 Families == <<"register", "register", "register", "setuser", "setuser", "setdef", "dbput", "dbput", "dbput", "dbdel",
@@ -107,6 +107,6 @@ Laws == /\ ValuesValid(st)
         /\ LevelsThere(st)
         /\ ActiveGated(st)
         /\ \A p \in Prefixes : QueryIsGets(st, p)
-        /\ \A o \in BfsOps : Step(st, o) # {} /\ FailuresChangeNothing(st, o)
+        /\ \A o \in BfsOps : Step(st, o) # {} /\ FailuresChangeNothing(st, o) /\ FeedShowsResult(st, o)
 GenView == <<st, Len(hist), done>>
 ====
